@@ -18,8 +18,10 @@ func init() { core.Register(core.Check{ID: "C15", Run: run, Replay: replay}) }
 
 // Case is the replay record of one executed case (exactly one of the three parts is set).
 type Case struct {
-	Kind  string    `json:"kind"` // "splat" | "spz" | "ply"
-	Splat []SplatIn `json:"splat,omitempty"`
+	Kind   string    `json:"kind"`             // "splat" | "splat-ladder" | "spz" | "ply"
+	Reader int       `json:"reader,omitempty"` // io.Reader behaviour of the read side (readerModes)
+	N      int       `json:"n,omitempty"`      // splat-ladder: number of generated splats
+	Splat  []SplatIn `json:"splat,omitempty"`
 	Spz   *SpzFile  `json:"spz,omitempty"`
 	Ply   *PlyCase  `json:"ply,omitempty"`
 }
@@ -47,6 +49,10 @@ func run(c *core.Ctx) {
 		return
 	}
 	k.runSpz()
+	if c.Expired() {
+		return
+	}
+	k.runLadder()
 }
 
 func replay(c *core.Ctx) {
@@ -58,7 +64,9 @@ func replay(c *core.Ctx) {
 	k := &checker{c: c}
 	switch cs.Kind {
 	case "splat":
-		k.splatCase(cs.Splat, "replay")
+		k.splatCase(cs.Splat, "replay", cs)
+	case "splat-ladder":
+		k.splatCase(ladderCloud(cs.N), "replay", cs)
 	case "spz":
 		if cs.Spz != nil {
 			k.spzCase(*cs.Spz, "replay")
